@@ -68,6 +68,14 @@ pub struct Parent {
 }
 
 impl Parent {
+    // whether insert_by_id's hierarchy / type checks let this item in (uninterpreted: decided by the per-type primitive)
+    pub uninterp spec fn accepts(self, value: ItemRef) -> bool;
+    // the child list after `value` was (re)inserted before child `id` / appended
+    pub open spec fn inserted_before(children: Seq<usize>, v: usize, id: usize) -> Seq<usize> {
+        let rest = without_id(children, v);
+        rest.insert(rest.index_of(id), v)
+    }
+
     pub open spec fn same_state(self, other: Parent) -> bool {
         self.children@ == other.children@ && self.order@ == other.order@ && self.ident == other.ident && self.registered@ == other.registered@
     }
@@ -76,7 +84,7 @@ impl Parent {
     #[verifier::external_body]
     pub fn child_index(&self, id: usize) -> (r: Option<usize>)
         ensures r is Some <==> self.children@.contains(id),
-                r is Some ==> r->Some_0 < self.children@.len() && self.children@[r->Some_0 as int] == id,
+                r is Some ==> r->Some_0 < self.children@.len() && self.children@[r->Some_0 as int] == id && r->Some_0 == self.children@.index_of(id),
                 self.children@.len() <= usize::MAX,   // the child list is a Vec
     { unimplemented!() }
 
@@ -107,7 +115,12 @@ impl Parent {
         ensures final(self).order@ == old(self).order@, final(self).ident == old(self).ident, final(self).registered@ == old(self).registered@,
                 final(self).last_desc@ == old(self).last_desc@,
                 r is Err ==> final(self).children@ == old(self).children@,
+                r is Ok <==> old(self).accepts(value),
                 r is Ok ==> r->Ok_0 == value && final(self).children@.contains(value.ident),
+                r is Ok ==> final(self).children@ == (match id {
+                    Some(x) => Parent::inserted_before(old(self).children@, value.ident, x),
+                    None => without_id(old(self).children@, value.ident).push(value.ident),
+                }),
     { unimplemented!() }
 
     // value.set_order_after(id) / set_order_before(id) / clear_order(): HasContext methods of the ITEM, acting on the
@@ -343,6 +356,8 @@ pub mod prim {
         pub ident: usize,
         pub children: Vec<ItemRef>,
         pub parent_of: Ghost<Map<usize, Option<usize>>>,
+        pub has_doctype: Ghost<bool>,   // the child list already holds a document type declaration
+        pub has_element: Ghost<bool>,   // the child list already holds the document element
     }
     impl XmlDocument {
         pub fn id(&self) -> (r: usize) ensures r == self.ident { self.ident }
@@ -353,9 +368,9 @@ pub mod prim {
         { unimplemented!() }
         // read-only lookups over the child list (assumed callees)
         #[verifier::external_body]
-        pub fn document_declaration(&self) -> (r: Option<usize>) { unimplemented!() }
+        pub fn document_declaration(&self) -> (r: Option<usize>) ensures r is Some <==> self.has_doctype@ { unimplemented!() }
         #[verifier::external_body]
-        pub fn document_element(&self) -> (r: error::Result<usize>) { unimplemented!() }
+        pub fn document_element(&self) -> (r: error::Result<usize>) ensures r is Ok <==> self.has_element@ { unimplemented!() }
         #[verifier::external_body]
         pub fn world_remove_from_parent(&mut self, value: &ItemRef)
             ensures final(self).ident == old(self).ident,
@@ -434,6 +449,8 @@ def build():
     fns['append'] = Fn(FI, TR, 'append', props=P, sig_rules=SR, rules=[R_AFTER, R_PLA, R_REG], label='HasChildren::append (trait default)',
                        ensures=[('C13+C14:refused_call_changes_nothing', f'r is Err ==> {UNCHANGED}'),
                                 ('C13:accepted_child_is_in_the_list_and_numbered', 'r is Ok ==> final(self).children@.contains(value.ident)'),
+                                ('C13:succeeds_exactly_when_the_node_is_acceptable', 'r is Ok <==> old(self).accepts(value)'),
+                                ('C13:the_child_becomes_the_last_child', 'r is Ok ==> final(self).children@ == without_id(old(self).children@, value.ident).push(value.ident)'),
                                 ('C12:the_listed_handle_is_the_one_the_id_resolves_to', 'r is Ok ==> final(self).registered@.dom().contains(value.ident) && final(self).registered@[value.ident] == value.alloc@'),
                                 ('C14:whole_subtree_is_numbered_after_the_last_descendant', 'r is Ok && old(self).order@.contains(old(self).last_desc@) && !value.subtree@.contains(old(self).last_desc@) ==> final(self).order@ == placed_after(old(self).order@, old(self).last_desc@, value.subtree@)')])
     fns['delete'] = Fn(FI, TR, 'delete', props=P, sig_rules=SR, rules=[R_CLEAR], label='HasChildren::delete (trait default)',
@@ -443,13 +460,20 @@ def build():
                               ensures=[('C13+C14:refused_call_changes_nothing', f'r is Err ==> {UNCHANGED}'),
                                        ('C13:unknown_reference_is_refused', '!old(self).children@.contains(id) ==> r is Err'),
                                        ('C13:accepted_child_is_in_the_list_and_numbered', 'r is Ok ==> final(self).children@.contains(value.ident)'),
+                                       ('C13:succeeds_exactly_when_reference_and_node_are_acceptable', 'r is Ok <==> (old(self).children@.contains(id) && value.ident != id && old(self).accepts(value))'),
+                                       ('C13:the_child_lands_directly_before_the_reference', 'r is Ok ==> final(self).children@ == Parent::inserted_before(old(self).children@, value.ident, id)'),
                                        ('C12:the_listed_handle_is_the_one_the_id_resolves_to', 'r is Ok ==> final(self).registered@.dom().contains(value.ident) && final(self).registered@[value.ident] == value.alloc@'),
                                        ('C14:whole_subtree_is_numbered_before_the_reference', 'r is Ok && old(self).order@.contains(id) && !value.subtree@.contains(id) ==> final(self).order@ == placed_before(old(self).order@, id, value.subtree@)')])
     fns['insert_after'] = Fn(FI, TR, 'insert_after', props=P, sig_rules=SR, label='HasChildren::insert_after (trait default)',
                              rules=[Rule('R28', r'child\.id\(\)', 'child.id()', 'unchanged')],
                              ensures=[('C13+C14:refused_call_changes_nothing', f'r is Err ==> {UNCHANGED}'),
                                       ('C13:unknown_reference_is_refused', '!old(self).children@.contains(id) ==> r is Err'),
-                                      ('C13:accepted_child_is_in_the_list_and_numbered', 'r is Ok ==> final(self).children@.contains(value.ident)')])
+                                      ('C13:accepted_child_is_in_the_list_and_numbered', 'r is Ok ==> final(self).children@.contains(value.ident)'),
+                                      ('C13:the_child_lands_directly_after_the_reference',
+                                       'r is Ok ==> final(self).children@ == (if old(self).children@.index_of(id) + 1 < old(self).children@.len()'
+                                       ' { Parent::inserted_before(old(self).children@, value.ident, old(self).children@[old(self).children@.index_of(id) + 1]) }'
+                                       ' else { without_id(old(self).children@, value.ident).push(value.ident) })'),
+                                      ('C12:the_listed_handle_is_the_one_the_id_resolves_to', 'r is Ok ==> final(self).registered@.dom().contains(value.ident) && final(self).registered@[value.ident] == value.alloc@')])
     R_PRIM = [Rule('R43', r'value\.parent_id\(\)', 'self.world_parent_id(&value)', 'the parent link lives in the shared world: read through the receiver'),
               Rule('R43', r'value\.remove_from_parent\(\);', 'self.world_remove_from_parent(&value);', 'the item leaves its old parent: shared world made explicit on the receiver'),
               Rule('R43', r'value\.set_parent_id\(Some\(self\.id\(\)\)\);', 'let __me = self.id(); self.world_set_parent_id(&value, Some(__me));', 'same'),
@@ -486,7 +510,11 @@ def build():
         ensures=[('C13+C12:refused_call_changes_nothing', 'r is Err ==> final(self).children@ == old(self).children@ && final(self).parent_of@ == old(self).parent_of@'),
                  ('C13+C12:accepted_child_is_listed_once_under_this_parent', 'r is Ok ==> r->Ok_0 == value && ids(final(self).children@).contains(value.ident) && final(self).parent_of@[value.ident] == Some(old(self).ident)'),
                  ('C12:accepted_child_is_listed_exactly_once', 'r is Ok ==> (forall|i: int, j: int| 0 <= i < final(self).children@.len() && 0 <= j < final(self).children@.len()'
-                  ' && #[trigger] ids(final(self).children@)[i] == value.ident && #[trigger] ids(final(self).children@)[j] == value.ident ==> i == j)')],
+                  ' && #[trigger] ids(final(self).children@)[i] == value.ident && #[trigger] ids(final(self).children@)[j] == value.ident ==> i == j)'),
+                 ('C12:at_most_one_document_element_and_one_document_type',
+                  '(value.item is Element && old(self).has_element@ ==> r is Err) && (value.item is DocumentType && (old(self).has_doctype@ || old(self).has_element@) ==> r is Err)'),
+                 ('C13:only_comments_pis_one_doctype_and_one_element_are_children_of_a_document',
+                  'r is Ok ==> (value.item is Comment || value.item is PI || value.item is Element || value.item is DocumentType)')],
         inject=[(r'let index = doc\.child_index\(id\)\.unwrap\(\);', 'proof { lemma_filter_keeps_items(old(doc).children@, value.ident, Some(id)); }', 'before'),
                 (r'doc\.children\.insert\(index, ', 'proof { assert(ids(doc.children@)[index as int] == value.ident); }'),
                 (r'doc\.children\.push\(', 'proof { assert(ids(doc.children@)[doc.children@.len() - 1] == value.ident); }')])
